@@ -9,6 +9,7 @@ import (
 	"strconv"
 	"strings"
 	"sync"
+	"sync/atomic"
 	"time"
 
 	"github.com/blevesearch/bleve/v2"
@@ -609,6 +610,27 @@ func (g *bGroup) search(qname string, rq Request, keyStrs []string) (obs bObserv
 	case "before":
 		req.SetSearchBefore(keyStrs)
 	}
+	if rq.Mode == "page" && (rq.Skip+rq.Size)%2 == 0 {
+		// the SAME request object is used first for a SearchBefore whose page is empty (the
+		// cursor is the very first hit of the ordering), then for the page itself: a search
+		// must leave the caller's request as it found it
+		first := bleve.NewSearchRequestOptions(bq.Q(), 1, 0, false)
+		first.SortByCustom(buildSort(rq.Sort, bField))
+		if fr, ferr := g.idx.Search(first); ferr == nil && len(fr.Hits) == 1 {
+			cur := fr.Hits[0].Sort
+			if len(fr.Hits[0].DecodedSort) == len(cur) {
+				cur = fr.Hits[0].DecodedSort
+			}
+			from := req.From
+			req.From = 0
+			req.SetSearchBefore(append([]string{}, cur...))
+			if _, berr := g.idx.Search(req); berr == nil {
+				atomic.AddInt64(&reusedRequests, 1)
+			}
+			req.SearchBefore = nil
+			req.From = from
+		}
+	}
 	res, err := g.idx.Search(req)
 	if err != nil {
 		return bObserved{}, err
@@ -639,6 +661,8 @@ func (g *bGroup) record(qname string, rq Request, obs bObserved) map[string]any 
 		"hits": obs.Hits, "total": obs.Total, "maxs": maxs,
 	}
 }
+
+var reusedRequests int64
 
 type bArtefact struct {
 	Index BIndex   `json:"index"`
